@@ -16,7 +16,10 @@ func facts(repo string, w io.Writer) error {
 	if err != nil {
 		return err
 	}
-	return ru.QuorumFacts(s, w)
+	if err := ru.QuorumFacts(s, w); err != nil {
+		return err
+	}
+	return ru.SendFacts(s, w)
 }
 
 func quorum(rf, replica int) (nrep, q int) {
@@ -52,15 +55,23 @@ func run(raw json.RawMessage) (common.Case, error) {
 		place = append(place, natList(p))
 	}
 	anyFail := false
-	for _, w := range in.Writes {
+	released := make([]ru.Write, 0, len(res.Order))
+	for _, i := range res.Order {
+		released = append(released, in.Writes[i])
+	}
+	for _, w := range released {
 		writes = append(writes, common.Tuple(common.Nat(w.Node), common.Nat(w.Rep), ru.KindCoq(w.Kind)))
 		anyFail = anyFail || w.Kind != "ok"
 	}
 	for _, x := range res.IDs {
 		ids = append(ids, natList(x))
 	}
+	var nresp []int
+	for _, i := range res.Order {
+		nresp = append(nresp, res.Responses[i])
+	}
 	c.Coq = common.App("CAck", common.Z(int64(in.RF)), common.Z(int64(in.Replica)), common.List(place), common.List(writes),
-		common.List(ids), common.Z(int64(res.Status)), common.Nat(res.DeliveredAtReturn))
+		common.List(ids), natList(nresp), common.Z(int64(res.Status)), common.Nat(res.DeliveredAtReturn))
 	c.Obs = res
 	c.Class = fmt.Sprintf("rf%d/series%d", in.RF, len(in.Place))
 	if in.Replica != 0 {
@@ -74,7 +85,7 @@ func run(raw json.RawMessage) (common.Case, error) {
 		_, q := quorum(in.RF, in.Replica)
 		for s, p := range in.Place {
 			ok := 0
-			for k, w := range in.Writes {
+			for k, w := range released {
 				if k < res.DeliveredAtReturn && w.Kind == "ok" && p[w.Rep] == w.Node {
 					ok++
 				}
@@ -85,6 +96,15 @@ func run(raw json.RawMessage) (common.Case, error) {
 				break
 			}
 		}
+	}
+	for i, n := range res.Responses {
+		if n != 1 && c.GoPred == "" {
+			c.GoPred = fmt.Sprintf("write (node %d, replica %d) produced %d responses, want exactly one", in.Writes[i].Node, in.Writes[i].Rep, n)
+			c.Sig = "not-one-response"
+		}
+	}
+	if in.Workers > 0 {
+		c.Class = "saturated-pool/" + c.Class
 	}
 	return c, nil
 }
@@ -174,6 +194,28 @@ func gen(r *rand.Rand, tier string, n int) []any {
 			} else {
 				ws[j].Kind = bad[r.Intn(len(bad))]
 			}
+		}
+		in.Writes = ws
+		out = append(out, in)
+	}
+	// saturated worker pools: few nodes, several replicas of different series on
+	// the same node, one worker per peer, so that sendWrites' non-blocking first
+	// pass rejects some writes and the blocking second pass has to deliver them
+	for i := 0; i < n/5; i++ {
+		rf := 3 + r.Intn(3)
+		in := ru.FanoutInput{RF: rf, Workers: 1}
+		nodes := 1 + r.Intn(2)
+		for s := 0; s < 2+r.Intn(3); s++ {
+			row := make([]int, rf)
+			for j := range row {
+				row[j] = r.Intn(nodes)
+			}
+			in.Place = append(in.Place, row)
+		}
+		ws := writesFor(&in)
+		r.Shuffle(len(ws), func(a, b int) { ws[a], ws[b] = ws[b], ws[a] })
+		for j := range ws {
+			ws[j].Kind = common.Pick(r, "ok", "ok", "ok", "conflict", "unavail", "other")
 		}
 		in.Writes = ws
 		out = append(out, in)
